@@ -11,6 +11,32 @@ pub mod c18;
 pub fn child_mode(mode: &str, extra: &[String]) -> Option<i32> {
     match mode {
         "decode-batch" => Some(c09::child_decode_batch(extra)),
+        "probe-rangemap" => {
+            probe_rangemap();
+            Some(0)
+        }
         _ => None,
     }
+}
+
+#[allow(dead_code)]
+pub fn probe_rangemap() {
+    use klukai_types::base::CrsqlDbVersion as V;
+    use rangemap::RangeInclusiveMap;
+    let mut m: RangeInclusiveMap<V, &str> = RangeInclusiveMap::new();
+    m.insert(V(2)..=V(2), "A");
+    m.insert(V(3)..=V(3), "B");
+    println!("1: {m:?}");
+    m.insert(V(3)..=V(3), "C");
+    println!("2: {m:?}");
+    let mut m: RangeInclusiveMap<u64, &str> = RangeInclusiveMap::new();
+    m.insert(2..=2, "A");
+    m.insert(3..=3, "B");
+    m.insert(3..=3, "C");
+    println!("u64: {m:?}");
+    let mut m: RangeInclusiveMap<V, &str> = RangeInclusiveMap::new();
+    m.insert(V(3)..=V(3), "B");
+    m.insert(V(2)..=V(2), "A");
+    m.insert(V(3)..=V(3), "C");
+    println!("3: {m:?}");
 }
